@@ -889,7 +889,11 @@ func grpcStatusFromError(err error) (*statusv1.Status, error) {
 		Message: err.Error(),
 	}
 	if connectErr, ok := asError(err); ok {
-		status.Code = int32(connectErr.Code())
+		if connectErr.Code() != 0 {
+			// Zero is gRPC's OK: an error that carries it (NewError(0, ...), or a
+			// code that lost its value on the way) must not read as success.
+			status.Code = int32(connectErr.Code())
+		}
 		status.Message = connectErr.Message()
 		details, err := connectErr.detailsAsAny()
 		if err != nil {
